@@ -425,6 +425,11 @@ class Renderer(object):  # pylint: disable=too-many-instance-attributes
                 words += self.e_word(pr.e + ext * 0.127)
             elif ext < 0 and self.p["retract"] == "wild" and self.e_ok():
                 words += self.e_word(pr.e - 0.127 * 4)
+            elif (ext < 0 and self.p.get("wipe") and self.p["retract"] == "matched" and words and not self.fw
+                  and not self.retracted and self.e_ok()):
+                # a wipe: the retraction of a matched cycle made while travelling (change C05-r13-1); the next cycle() recovers it
+                words += self.e_word(pr.e - self.delta)
+                self.retracted = True
             if feed is not None:
                 words += " F" + fmt(feed / pr.u, 3)
             if not words:
